@@ -315,16 +315,23 @@ def run_zmat(chk, rng, ncases, grounds=(None, None, 'ideal'), cases=None, tol=1e
         res = _eval_groups(chk, 'zmat', good, mk)
     finally:
         HEADER = saved
-    nbad = nent = 0
-    worst = 0.0
+    nbad = nent = copied = 0
+    worst = worst_copy = 0.0
     for r in good:
         if r['id'] not in res:
             continue
         o = r['obs']
         v = parse_floats(res[r['id']][0][0])
         n = len(o['pulses'])
-        if len(v) != 2 * n * n:
+        if len(v) != 2 * n * n + 2:
             chk.tie_broken('correspondence', 'zmat', 'case %d: model returned %d numbers for a %dx%d matrix' % (r['id'], len(v), n, n)); nbad += 1; continue
+        cdev, ncopy = v[-2], int(v[-1]); v = v[:-2]
+        copied += ncopy; worst_copy = max(worst_copy, cdev)
+        if not cdev <= 1e-9:
+            # the hypothesis of C02_copied_entry_is_direct does not hold for a pair the fill copies
+            chk.notes.setdefault('failing_specs', []).append(r['spec'])
+            chk.tie_broken('correspondence', 'zmat-copy', 'case %d (%s): a matrix entry is copied between pulse pairs that are not translates of each other '
+                           '(deviation %.3g of the segment length)' % (r['id'], r['spec']['family'], cdev))
         Z = [[complex(float.fromhex(a), float.fromhex(b)) for a, b in row] for row in o['Z']]
         zmax = max(abs(z) for row in Z for z in row)
         bad = []
@@ -342,7 +349,7 @@ def run_zmat(chk, rng, ncases, grounds=(None, None, 'ideal'), cases=None, tol=1e
             chk.tie_broken('correspondence', 'zmat', 'case %d (%s, %s, %d pulses): %d entries differ, e.g. %s' % (
                 r['id'], r['spec']['family'], 'ground' if o['ground'] else 'free', n, len(bad), bad[0]))
     chk.stages['zmat'] = dict(cases=len(cases), real_ok=len(good), real_errors=len(errs), compared=len(res), entries=nent,
-                              disagreements=nbad, worst_rel_to_max=worst)
+                              disagreements=nbad, worst_rel_to_max=worst, copied_entries=copied, worst_copy_pair_deviation=worst_copy)
     return good, errs
 
 # ------------------------------------------------------------------ nf
